@@ -142,7 +142,9 @@ def corrupt_variants(lines):
     for want_bool in (True, False):
         for i, e in enumerate(evs):
             if i > len(evs) // 3 and not done:
-                for k, v in e.items():
+                for k, v in sorted(e.items(), key=lambda kv: kv[0] != "ok"):      # an "ok" flag first: it always matters
+                    if want_bool and isinstance(v, bool) and k == "ffok":
+                        continue          # irrelevant once the sink has failed: flipping it is not a corruption
                     if want_bool and isinstance(v, bool):
                         e2 = copy.deepcopy(evs); e2[i][k] = not v; out.append(("flip %s of event %d" % (k, i + 1), e2)); done = True; break
                     if not want_bool and isinstance(v, int) and not isinstance(v, bool) and k in ("n", "took", "inside"):
